@@ -69,8 +69,14 @@ Definition requires_tbl (f : string) : held :=
 
 (* C12's hypothesis: a node's Process, Close or Reopen, and the Sender a gated filter flushes through, may call
    Broker.Send, which takes Broker.lock in read mode (a recursive read lock deadlocks as soon as a writer is queued) *)
+(* a blocking wait that is not a mutex operation (WaitGroup.Wait, Cond.Wait, channel send / receive, select without default;
+   callback kinds "wait:...", emitted by the translator) may depend on another goroutine that needs the registry locks --
+   e.g. on an in-flight Send whose node calls Send again: it must not happen while Broker.lock or a threshold lock is held *)
+Definition is_wait (k : string) : bool := starts "wait:" k.
+Definition wait_acq (k : string) : list string := if is_wait k then [L_broker; L_thr] else [].
 Definition user_acq (k : string) : list string :=
-  if mem k ["Node.Process"; "Closer.Close"; "Node.Reopen"; "Sender.Send"] then [L_broker] else [].
+  if mem k ["Node.Process"; "Closer.Close"; "Node.Reopen"; "Sender.Send"] then [L_broker]
+  else wait_acq k.
 Definition no_user_acq (_ : string) : list string := [].
 
 Definition ctors : list string :=
@@ -100,6 +106,8 @@ Definition mk (g : string -> guard) (ua : string -> list string) (w : list (stri
 
 (* C12: lock protocol and callbacks only *)
 Definition contracts_C12 (pr : program) : contracts := mk (fun _ => GFree) user_acq [] pr.
+(* C12, the waits alone: the named obligation no_blocking_wait_under_registry_lock *)
+Definition contracts_C12_waits (pr : program) : contracts := mk (fun _ => GFree) wait_acq [] pr.
 (* C04: the Broker's registry fields *)
 Definition contracts_C04 (pr : program) : contracts :=
   mk (fun f => if broker_field f then guard_tbl f else GFree) no_user_acq [] pr.
